@@ -68,12 +68,27 @@ MECH = [
  ("inline_marked_subroutines / inline_internal_procedures (inline_subroutine_calls -> map_call_to_procedure_body) look the dummy "
   "arguments up case-sensitively: when the callee spells a dummy differently in its body than in its declaration (XIN vs xin) "
   "the reference is not replaced by the actual argument; the inlined statement keeps the callee's dummy (scope = callee, "
-  "undeclared in the caller).",
+  "undeclared in the caller). When the callee is an internal procedure it is removed from CONTAINS afterwards: once it is "
+  "garbage collected the scope of the left-over dummy is a dead weak reference (class stale-scoped-node instead of other-unit).",
   "subroutine Hsub(nn, XIN, xio, sout); real, intent(in) :: xin(nn); ... sout = sout + XIN(ii) ... | kern: '!$loki inline' / "
-  "'call hsub(n, a1, zs, s2)' -> 'sout = sout + XIN(ii)' stays in kern",
+  "'call hsub(n, a1, zs, s2)' -> 'sout = sout + XIN(ii)' stays in kern. Internal procedure: " + W + "inline_internal_procedures(case)  "
+  "('Subroutine isub(nn, xin, ..)' / 'REAL :: XIN(nn)' / 'sout = Sout + xin(II)' -> 'S2 = S2 + xin(II)' in kern; C41 seed 1 idx 74, seed 0 thorough idx 138)",
   "key the argument map by lower-cased names (CaseInsensitiveDict) as everywhere else",
   [f'{e}:{k}' for e in ('inline_marked_subroutines', 'InlineTransformation', 'sched:InlineTransformation')
-   for k in ('scope:other-unit', 'undeclared:var')]),
+   for k in ('scope:other-unit', 'undeclared:var')] +
+  ['inline_internal_procedures:scope:other-unit', 'inline_internal_procedures:undeclared:var'] +
+  [f'{e}:scope:stale-scoped-node' for e in ('inline_internal_procedures', 'InlineTransformation', 'sched:InlineTransformation')]),
+ ("PrintStmt.values is not in PrintStmt._traversable: no Loki visitor reaches the symbols of a PRINT statement, so "
+  "rescope_symbols() / AttachScopes, SubstituteExpressions and FindVariables skip them, and no transformation handles PrintStmt "
+  "itself. One mechanism for every transformation that clones, moves or renames code (key independent of the entry): (scope) "
+  "after ProgramUnit.clone (DuplicateKernel: kern -> kerndupl, module clones), outlining, extraction or inlining the symbols "
+  "printed keep the scope of the original / former unit (or a dead weak reference once that unit is gone); (undeclared) a "
+  "renamed variable or a substituted dummy argument keeps its old name inside PRINT (rename_variables, inlining), which is "
+  "no longer declared (gfortran: no IMPLICIT type).",
+  W + "print_stmt   (kern with \"print *, 'x', s2, a1(n)\": k2 = k.clone(name='k2') -> 'Scalar s2 in PrintStmt of k2 has scope "
+  "Subroutine k'; C41 seed 1 sched:DuplicateKernel: 'Scalar s2 in PrintStmt of kerndupl has scope Subroutine kern')",
+  "add 'values' to PrintStmt._traversable (and the expression fields of the other GenericStmt subclasses)",
+  ['*:scope:print-statement-symbols-not-rescoped', '*:undeclared:print-statement-symbols-not-substituted']),
  ("HoistVariablesTransformation / HoistTemporaryArraysTransformationAllocatable / TemporariesPoolAllocatorTransformation copy "
   "declarations, allocations, call arguments and the imports they need from the kernel into the driver without cloning them "
   "into the driver's scope: the driver then holds symbols (kern_w1, jprb in kind= and in the copied USE statement) whose scope "
